@@ -260,8 +260,10 @@ package mqtt
 //@   loop 1 invariant forall(0, rangeindex+1, func(j int) bool { return rs[j] != 0 && !(0xD800 <= rs[j] && rs[j] <= 0xDFFF) })
 //@   ensures[C06] len(b) < 2 ==> result2 != nil
 //@   ensures[C06] len(b) >= 2 && 2+(int(b[0])*256+int(b[1])) > len(b) ==> result2 != nil
-//@   ensures[C05,C06] result2 == nil ==> len(b) >= 2 && result0 == 2+(int(b[0])*256+int(b[1])) && result0 <= len(b)
-//@   ensures[C05] result2 == nil && validUTF8(string(b[2:result0])) ==> result1 == string(b[2:result0])
+//@   ensures[C04,C05,C06] result2 == nil ==> len(b) >= 2 && result0 == 2+(int(b[0])*256+int(b[1])) && result0 <= len(b)
+//@   ensures[C04,C05] result2 == nil && validUTF8(string(b[2:result0])) ==> result1 == string(b[2:result0])
+//@   ensures[C04,C05] accepts: len(b) >= 2 && 2+(int(b[0])*256+int(b[1])) <= len(b) &&
+//@        forall(0, len([]rune(string(b[2:2+(int(b[0])*256+int(b[1]))]))), func(j int) bool { return []rune(string(b[2:2+(int(b[0])*256+int(b[1]))]))[j] != 0 && !(0xD800 <= []rune(string(b[2:2+(int(b[0])*256+int(b[1]))]))[j] && []rune(string(b[2:2+(int(b[0])*256+int(b[1]))]))[j] <= 0xDFFF) }) ==> result2 == nil
 //@   ensures[C06] result2 == nil ==> forall(0, len([]rune(string(b[2:result0]))), func(j int) bool { return []rune(string(b[2:result0]))[j] != 0 && !(0xD800 <= []rune(string(b[2:result0]))[j] && []rune(string(b[2:result0]))[j] <= 0xDFFF) })
 
 //@ func (*pktPublish).Parse
@@ -271,12 +273,14 @@ package mqtt
 //@   requires p != nil
 //@   ensures[C06] flag&0x06 == 0x06 ==> result1 != nil
 //@   ensures[C06] result1 == nil ==> result0 == p && p.Message != nil && fresh(p.Message) && p.Message.QoS <= QoS2
-//@   ensures[C05] result1 == nil ==> p.Message.Dup == (flag&0x08 != 0) && p.Message.Retain == (flag&0x01 != 0) && p.Message.QoS == QoS((flag>>1)&3)
-//@   ensures[C05] tlen: result1 == nil ==> len(contents) >= 2 && 2+(int(contents[0])*256+int(contents[1])) <= len(contents)
-//@   ensures[C05] topic: result1 == nil && validUTF8(string(contents[2:2+(int(contents[0])*256+int(contents[1]))])) ==> p.Message.Topic == string(contents[2:2+(int(contents[0])*256+int(contents[1]))])
-//@   ensures[C05] id: result1 == nil && p.Message.QoS != QoS0 ==> 4+(int(contents[0])*256+int(contents[1])) <= len(contents) && p.Message.ID == uint16(contents[2+(int(contents[0])*256+int(contents[1]))])<<8|uint16(contents[3+(int(contents[0])*256+int(contents[1]))])
-//@   ensures[C05] id0: result1 == nil && p.Message.QoS == QoS0 ==> p.Message.ID == 0
-//@   ensures[C05] payload: result1 == nil ==> seqEq(seqOf(p.Message.Payload), sub(seqOf(contents), 2+(int(contents[0])*256+int(contents[1]))+ite(p.Message.QoS != QoS0, 2, 0), len(contents)))
+//@   ensures[C04,C05] accepts: flag&0x06 != 0x06 && evCount("unpackString") == 1 && evRet[error]("unpackString", 0, 2) == nil &&
+//@        (flag&0x06 == 0 || len(contents)-evRet[int]("unpackString", 0, 0) >= 2) ==> result1 == nil
+//@   ensures[C04,C05] result1 == nil ==> p.Message.Dup == (flag&0x08 != 0) && p.Message.Retain == (flag&0x01 != 0) && p.Message.QoS == QoS((flag>>1)&3)
+//@   ensures[C04,C05] tlen: result1 == nil ==> len(contents) >= 2 && 2+(int(contents[0])*256+int(contents[1])) <= len(contents)
+//@   ensures[C04,C05] topic: result1 == nil && validUTF8(string(contents[2:2+(int(contents[0])*256+int(contents[1]))])) ==> p.Message.Topic == string(contents[2:2+(int(contents[0])*256+int(contents[1]))])
+//@   ensures[C04,C05] id: result1 == nil && p.Message.QoS != QoS0 ==> 4+(int(contents[0])*256+int(contents[1])) <= len(contents) && p.Message.ID == uint16(contents[2+(int(contents[0])*256+int(contents[1]))])<<8|uint16(contents[3+(int(contents[0])*256+int(contents[1]))])
+//@   ensures[C04,C05] id0: result1 == nil && p.Message.QoS == QoS0 ==> p.Message.ID == 0
+//@   ensures[C04,C05] payload: result1 == nil ==> seqEq(seqOf(p.Message.Payload), sub(seqOf(contents), 2+(int(contents[0])*256+int(contents[1]))+ite(p.Message.QoS != QoS0, 2, 0), len(contents)))
 
 //@ func readPacket
 //@   mode bv
